@@ -231,6 +231,13 @@ func c04Tree(r *gen.Rand, n int, L int) []world.File {
 		}
 		files = append(files, world.File{Name: name, Data: data})
 	}
+	// ordinary files whose names only resemble the reserved ones (uploaded like any other)
+	for _, nm := range []string{".datamon.yaml", ".datamon-backup/x", ".conflicts.txt", ".checkpoints-2020/y", ".datamonrc", ".checkpoints_old", "..conflicts", ".conflicts~"} {
+		if r.Chance(1, 4) && !names[nm] {
+			names[nm] = true
+			files = append(files, world.File{Name: nm, Data: r.Bytes(r.Intn(L + 2))})
+		}
+	}
 	// generated-path decoys (never uploaded)
 	for _, d := range c04Decoys {
 		if r.Chance(1, 2) {
@@ -293,6 +300,7 @@ func init() {
 					panic(err)
 				}
 				cs.Entries, cs.IndexSizes, cs.Downloads, cs.UpErr = nil, nil, nil, ""
+				c.Pending(&cs)
 				c04Run(&cs, py)
 				emit(&cs)
 			}
@@ -324,6 +332,7 @@ func init() {
 			if n > 100 {
 				c.closeShard() // big trees get a case file of their own
 			}
+			c.Pending(cs)
 			c04Run(cs, py)
 			emit(cs)
 			if n > 100 {
@@ -347,6 +356,7 @@ func init() {
 					ks.Keys = append(ks.Keys, ".datamon/not-there.yaml")
 				}
 				ks.Sels = c04Sels(r, cs.Files)[:2]
+				c.Pending(ks)
 				c04Run(ks, py)
 				emit(ks)
 			}
